@@ -67,7 +67,7 @@ func mutateAt(r *core.Rng, v interface{}, kind string, pick int) (interface{}, b
 	cp = func(x interface{}) interface{} {
 		switch y := x.(type) {
 		case *OObj:
-			o := &OObj{Vals: map[string]interface{}{}, Abstract: y.Abstract}
+			o := &OObj{Vals: map[string]interface{}{}, Abstract: y.Abstract, Outsiders: y.Outsiders}
 			for _, k := range y.Keys {
 				o.Set(k, cp(y.Vals[k]))
 			}
@@ -92,7 +92,7 @@ func mutateAt(r *core.Rng, v interface{}, kind string, pick int) (interface{}, b
 		}
 	}
 	switch kind {
-	case "typename-unknown", "typename-missing", "typename-empty", "typename-not-string":
+	case "typename-unknown", "typename-missing", "typename-empty", "typename-not-string", "typename-of-an-impossible-type":
 		if len(typed) == 0 {
 			return root, false
 		}
@@ -106,6 +106,20 @@ func mutateAt(r *core.Rng, v interface{}, kind string, pick int) (interface{}, b
 		switch kind {
 		case "typename-unknown":
 			o.Vals["__typename"] = "NoSuchTypeAnywhere"
+		case "typename-of-an-impossible-type":
+			// a real object type of the schema, but not one this position can hold
+			if len(o.Outsiders) == 0 {
+				return root, false
+			}
+			if impossibleIdx >= 0 {
+				// the sweep walks through the outsiders one by one
+				if impossibleIdx >= len(o.Outsiders) {
+					return root, false
+				}
+				o.Vals["__typename"] = o.Outsiders[impossibleIdx]
+			} else {
+				o.Vals["__typename"] = o.Outsiders[r.Intn(len(o.Outsiders))]
+			}
 		case "typename-empty":
 			o.Vals["__typename"] = ""
 		case "typename-not-string":
@@ -158,7 +172,11 @@ func mutateAt(r *core.Rng, v interface{}, kind string, pick int) (interface{}, b
 	return root, false
 }
 
-var mutationKinds = []string{"typename-unknown", "typename-missing", "typename-empty", "typename-not-string", "swap-kind", "swap-kind", "dup-key", "deep-nest"}
+// impossibleIdx >= 0: which outsider the "typename-of-an-impossible-type" mutation uses (the
+// sweep); -1: a random one
+var impossibleIdx = -1
+
+var mutationKinds = []string{"typename-unknown", "typename-missing", "typename-empty", "typename-not-string", "swap-kind", "swap-kind", "dup-key", "deep-nest", "typename-of-an-impossible-type"}
 
 func run(prop, tier string, seed int64, outDir, replay string) (*core.Result, error) {
 	res := core.NewResult(prop, tier, seed)
@@ -294,16 +312,32 @@ func run(prop, tier string, seed int64, outDir, replay string) (*core.Result, er
 			// C19: a sweep over the abstract positions of one response, each with a bad __typename
 			if prop == "C19" && replayCase == nil {
 				resp := GenResponse(rng, p.Ex.Schema, doc, bindingFor(p.Case), 0.05)
+				// every abstract position (up to 6) with a bad __typename; the kind rotates with the
+				// position, and the impossible-but-existing type is tried at every position too
 				for pick := 0; pick < 6; pick++ {
-					kind := mutationKinds[pick%4]
-					payload, must := mutateAt(rng, resp, kind, pick)
-					if !must {
+					stop := false
+					kinds := []string{[]string{"typename-unknown", "typename-missing", "typename-empty", "typename-not-string"}[pick%4]}
+					for k := 0; k < 5; k++ {
+						kinds = append(kinds, "typename-of-an-impossible-type")
+					}
+					for ki, kind := range kinds {
+						impossibleIdx = ki - 1
+						payload, must := mutateAt(rng, resp, kind, pick)
+						impossibleIdx = -1
+						if !must {
+							if kind != "typename-of-an-impossible-type" {
+								stop = true
+							}
+							continue
+						}
+						id := fmt.Sprintf("%s/%s/sweep%d-%s%d", p.Name, op, pick, kind, ki)
+						raw, _ := json.Marshal(payload)
+						metas[id] = &meta{p: p, op: op, doc: doc, resp: resp, mut: kind, mustEr: true, raw: raw}
+						tasks = append(tasks, &Task{ID: id, Prog: p.Name, Op: op, Kind: "decode", JSON: raw})
+					}
+					if stop {
 						break
 					}
-					id := fmt.Sprintf("%s/%s/sweep%d", p.Name, op, pick)
-					raw, _ := json.Marshal(payload)
-					metas[id] = &meta{p: p, op: op, doc: doc, resp: resp, mut: kind, mustEr: true, raw: raw}
-					tasks = append(tasks, &Task{ID: id, Prog: p.Name, Op: op, Kind: "decode", JSON: raw})
 				}
 			}
 		}
